@@ -396,6 +396,20 @@ impl Ty {
         }
     }
 
+    /// Does the rendering of this type take more than `limit` bytes?
+    /// Rendering stops as soon as the limit is exceeded, so the cost is bounded by `limit`
+    /// whatever the (possibly exponential) size of the type is.
+    pub(crate) fn rendered_longer_than(&self, limit: usize) -> bool {
+        struct Limited(usize);
+        impl fmt::Write for Limited {
+            fn write_str(&mut self, s: &str) -> fmt::Result {
+                self.0 = self.0.checked_sub(s.len()).ok_or(fmt::Error)?;
+                Ok(())
+            }
+        }
+        fmt::write(&mut Limited(limit), format_args!("{self}")).is_err()
+    }
+
     /// Create a union of two entries.
     pub fn union2(a: Self, b: Self) -> Self {
         // Handle fast cases first.
